@@ -14,7 +14,8 @@ ASSUMPTIONS = [
     "generator contract: uniform(lo,hi) in [lo,hi); shuffle/permutation = arbitrary permutation; choice without replacement = distinct indices",
 ]
 STUBS = ["SymRNG (vf/stubs.py): uniform, shuffle, choice by contract",
-         "outcross_shuffle: FirstPickRNG explores, per shuffle of the exchange list, the n rotations (every exchange is tried first in one of them); sound because the scan stops at the first improving exchange, so the set of reachable tables per iteration is {apply e : e improving} and each is reached by the rotation starting with e"]
+         "outcross_shuffle: FirstPickRNG explores, per shuffle of the exchange list, the n rotations (every exchange is tried first in one of them); sound because the scan stops at the first improving exchange, so the set of reachable tables per iteration is {apply e : e improving} and each is reached by the rotation starting with e",
+         "outcross_shuffle with inductive=True (large tables): only the FIRST shuffle is symbolic, later iterations use the identity order; sound because every table is enumerated as a start table and the state after one iteration is exactly the start state of a fresh run (gbest_score = score of the current table), so step properties are covered by (all tables x all first exchanges) and the stopping clause by the order-independent full scan from every table"]
 BOUNDS = {"quick": dict(options="<=3", draws="<=3", tables="2x2"),
           "thorough": dict(options="<=4", draws="<=4", tables="up to 3x2 / 2x3")}
 OUTSIDE = ["more options/draws than the bounds", "float accumulation in cumsum/sum (exact reals) except the fp64 pointer-count kernel"]
@@ -157,8 +158,13 @@ class OutcrossShuffle(Harness):
     def inputs(self, mk):
         r, c = self.params["shape"]
         x = mk.int("x", (r, c), lo=0, hi=self.params.get("nid", 3) - 1)
+        for k, v in enumerate(self.params.get("prefix", [])):
+            mk.assume(cell(x, k // c, k % c) == v)     # splits the table space over parallel obligations
         from ..stubs import FirstPickRNG
-        return dict(x=x, rng=mk.rng(cls=FirstPickRNG))
+        rng = mk.rng(cls=FirstPickRNG)
+        if self.params.get("inductive"):
+            rng.symbolic_calls = 1
+        return dict(x=x, rng=rng)
 
     def call(self, inp, mk):
         from pybrops.core.random.sampling import outcross_shuffle
@@ -215,6 +221,13 @@ def obligations(tier):
         h = OutcrossShuffle(shape=list(shp), nid=nid)
         h.weight = 50
         obs.append(h)
+    if tier == "thorough":
+        # 4x2 tables over two ids, table space split by the first four cells
+        for pre in itertools.product(range(2), repeat=4):
+            h = OutcrossShuffle(shape=[4, 2], nid=2, prefix=list(pre), inductive=True)
+            h.weight = 200
+            h.budget_s = 1500
+            obs.append(h)
     return obs
 
 
